@@ -1,4 +1,9 @@
-"""Network.is_valid (C06), deductive core: the body of each of its four loops (and of the nested
+"""NOT RUN BY THE CHECKS ANY MORE (kept for its value classes and as a developer tool,
+`tools/run_mod.py valid_tasks`): these fragment tasks pick the loops of is_valid by position and
+compare the loop headers textually, so a harmless reordering of the loops made them fail. The
+whole-function tasks of contracts/valid_agg_tasks.py subsume them and do not depend on the order.
+
+Network.is_valid (C06), deductive core: the body of each of its four loops (and of the nested
 generator) is the real AST, executed at a *generic item* of the collection the loop runs over:
 
   loop 1  every link of the links view, then every origin/destination attachment (the generator):
